@@ -1,0 +1,20 @@
+//go:build verif
+
+// Contracts checked by /verif/govc (comment-only; compiled only with -tags verif).
+package gkr
+
+// nHandled(claims, 0): number of wires whose claim the verifier has dealt with (checked directly or by a sum-check)
+// and removed from the claims manager (ghost counter, only ever increased)
+//@ ghost nHandled int monotone
+//@ contract (*claimsManager).deleteClaim
+//@   trusted "effect only: one more wire is done"
+//@   assigns nHandled(m, 0)
+//@   constraint nHandled(m, 0) == old(nHandled(m, 0)) + 1
+
+// Verify walks the sorted circuit from the last wire down to wire 0 and deals with every wire's claim: none is skipped
+// (counted from the function's entry: the manager is a local, its counter starts wherever the ghost memory has it)
+//@ contract Verify
+//@   props C19
+//@   requires api != nil
+//@   ensures @every-wire result == nil ==> nHandled(&claims, 0) >= old(nHandled(&claims, 0)) + len(c)
+//@   loop 1 invariant @progress i >= -1 && nHandled(&claims, 0) >= old(nHandled(&claims, 0)) + len(c) - 1 - i
